@@ -217,6 +217,15 @@ class C06:
                 for _ in range(draw(st.integers(1, 3))):
                     p = draw(st.integers(0, len(main)))
                     main.insert(p, ["c", draw(st.sampled_from([" x", "", " y\n", " *z\n*\n"])), "block"])
+            # DOS line ends between the tokens (a carriage return there is ignored and is not a line end), stray CRs
+            dos = draw(st.integers(0, 3)) == 0
+            if dos:
+                for body in [main] + list(files.values()):
+                    for t in body:
+                        if t[0] == "w":
+                            t[1] = t[1].replace("\n", "\r\n")
+                for _ in range(draw(st.integers(0, 2))):
+                    main.insert(draw(st.integers(0, len(main))), ["w", draw(st.sampled_from(["\r", "\r\r\n", " \r "]))])
             subs = [{"main": main, "files": files}]
             # a callback that refuses: the diagnostic it issues carries the position the parser has reached
             m0 = Model(opts, flags, files={n: gen_text.render(t) for n, t in files.items()})
